@@ -175,7 +175,6 @@ func (q *Queue) Replace(elem *queue.Elem) (replaced bool, err error) {
 }
 
 func (q *Queue) Read(pids []packets.PacketID) (rs []*queue.Elem, err error) {
-	now := time.Now()
 	q.cond.L.Lock()
 	defer q.cond.L.Unlock()
 	if !q.inflightDrained {
@@ -184,6 +183,8 @@ func (q *Queue) Read(pids []packets.PacketID) (rs []*queue.Elem, err error) {
 	for (q.l.Len() == 0 || q.current == nil) && !q.closed {
 		q.cond.Wait()
 	}
+	// the wait may have lasted long: expiry is judged (and the inflight expiry set) from now
+	now := time.Now()
 	if q.closed {
 		return nil, queue.ErrClosed
 	}
